@@ -140,6 +140,8 @@ static void keyswitch(int t, int bb, int nin, int nout, VhRng& rng, int nsamples
                 case 3: v = 0x7fffffffu - rng.below(1u << (sh < 20 ? sh : 20)); break;                                                     // just below 1/2: carry through the sign bit
                 case 4: v = 0xffffffffu - rng.below(1u << (sh < 20 ? sh : 20)); break;                                                     // top of range: wrap to 0
                 default: { int j = 1 + rng.below(t); uint32_t d = rng.below(2) ? (uint32_t)(base - 1) : 0u; v = (d << (32 - j * bb)) + (uint32_t)((int)rng.below(3) - 1) + (rng.below(2) ? (1u << (sh - 1)) : 0u); } }   // digit all-ones / zero
+            if (q % 8 == 5) v = 0;                                                          // a noiseless trivial sample: no row is selected at all
+            if (q % 8 == 6) v = sh > 1 ? rng.below(1u << (sh - 1)) : 0;                     // every coefficient below the rounding precision: rounds to digit 0 everywhere
             a[i] = v; in->a[i] = (Torus32)v;
         }
         in->b = (Torus32)rng.u32();
